@@ -956,6 +956,23 @@ def leading_dimension_agreement(chk, cid, prog, fnames, cfgname, floor=4):
             while e.k == 'Cast':
                 e = strip(e.c[0])
             return e
+        # a pointer that walks the columns of an array (`P = &X[..]; ... P += LD;`) uses LD as the leading dimension of X
+        walker = {}
+        for x in f.body.walk():
+            if x.k == 'Assign' and x.a['op'] == '=' and strip(x.c[0]).k == 'Ref':
+                r = strip(x.c[1])
+                if r.k == 'Unary' and r.a['op'] == '&' and strip(r.c[0]).k == 'Index' and strip(strip(r.c[0]).c[0]).k == 'Ref':
+                    walker.setdefault(strip(x.c[0]).a.get('id'), set()).add(strip(strip(r.c[0]).c[0]).a.get('id'))
+        refs_by_id = {}
+        for x in f.body.walk():
+            if x.k == 'Ref':
+                refs_by_id.setdefault(x.a.get('id'), x)
+        for x in f.body.walk():
+            if x.k == 'Assign' and x.a['op'] == '+=' and strip(x.c[0]).k == 'Ref' and strip(x.c[0]).a.get('id') in walker and strip(x.c[1]).k == 'Ref' \
+                    and strip(x.c[1]).a.get('id') not in loopvars:
+                bases = walker[strip(x.c[0]).a.get('id')]
+                if len(bases) == 1:
+                    note(refs_by_id.get(next(iter(bases))), strip(x.c[1]), x)
         for x in f.body.walk():
             if x.k == 'Index':
                 base = root_ref(x)
